@@ -1631,7 +1631,10 @@ predicate: false,
                 if lag {
                     self.lag_left = self.rng.gen_range(2..=6);
                     desc.push_str(" [storage view lags]");
-                    self.count("block.storage_view_lags_after_import");
+                    *self
+                        .counters
+                        .entry("block.storage_view_lags_after_import".to_string())
+                        .or_insert(0) += 1;
                 }
                 let mut block = Block::default();
                 block.header_mut().set_block_height(BlockHeight::new(*height));
